@@ -89,8 +89,10 @@ def pack_attrs(a, do_spacing=False):
             new_attrs[attr_coords][attr]=False
             if val is not None:
                 new_attrs[attr] = yaml.dump(val)
+    # the dimensions of each attribute are kept in their own order
     new_attrs[attr_coords] = yaml.dump(new_attrs[attr_coords],
-                                       default_flow_style=True)
+                                       default_flow_style=True,
+                                       sort_keys=False)
     return new_attrs
 
 
